@@ -228,7 +228,7 @@ func runCrash2(t *testing.T, sc Scenario2, crashes []CrashSpec, run int, w io.Wr
 			}
 			q, err := queue.VerifPrepare(queue.VerifConfig{
 				Location: dir, Target: mt, Bounce: mb, MaxTries: crashMt, MaxParallelism: 1,
-				InitialRetryTime: retryDelay, RetryTimeScale: 1, PostInitDelay: 0,
+				InitialRetryTime: schedOf(sc.ID).init, RetryTimeScale: schedOf(sc.ID).scale, PostInitDelay: schedOf(sc.ID).pid,
 				Hostname: "mx.example.org", AutogenMsgDomain: "example.org",
 				Log: log.Logger{Out: log.NopOutput{}},
 			})
